@@ -19,12 +19,15 @@ func parseLoadFile94(reader io.Reader, coresize Address) (WarriorData, error) {
 
 	lineNum := 0
 	breader := bufio.NewReader(reader)
-	for {
-		// empty lines and last lines without newlines seem to be missed
-		// should something else be used? or are these not worth handling?
+	done := false
+	for !done {
 		raw_line, err := breader.ReadString('\n')
 		if err != nil {
-			break
+			// the last line may end the input without a newline
+			if len(raw_line) == 0 {
+				break
+			}
+			done = true
 		}
 		lineNum++
 
@@ -41,7 +44,9 @@ func parseLoadFile94(reader io.Reader, coresize Address) (WarriorData, error) {
 			} else if strings.HasPrefix(lower, ";author") {
 				data.Author = strings.TrimSpace(raw_line[7:])
 			} else if strings.HasPrefix(lower, ";strategy") {
-				data.Strategy += raw_line[10:]
+				if len(raw_line) > 10 {
+					data.Strategy += raw_line[10:]
+				}
 			}
 			continue
 		}
@@ -275,12 +280,15 @@ func parseLoadFile88(reader io.Reader, coresize Address) (WarriorData, error) {
 
 	lineNum := 0
 	breader := bufio.NewReader(reader)
-	for {
-		// empty lines and last lines without newlines seem to be missed
-		// should something else be used? or are these not worth handling?
+	done := false
+	for !done {
 		raw_line, err := breader.ReadString('\n')
 		if err != nil {
-			break
+			// the last line may end the input without a newline
+			if len(raw_line) == 0 {
+				break
+			}
+			done = true
 		}
 		lineNum++
 
@@ -297,7 +305,9 @@ func parseLoadFile88(reader io.Reader, coresize Address) (WarriorData, error) {
 			} else if strings.HasPrefix(lower, ";author") {
 				data.Author = strings.TrimSpace(raw_line[7:])
 			} else if strings.HasPrefix(lower, ";strategy") {
-				data.Strategy += raw_line[10:]
+				if len(raw_line) > 10 {
+					data.Strategy += raw_line[10:]
+				}
 			}
 			continue
 		}
